@@ -5,6 +5,7 @@ checks against it on /repo, and store it as /verif/seeded/<ID>-<X>/ (patch.diff,
 import glob, json, os, re, shutil, subprocess, sys
 pid, x = sys.argv[1], sys.argv[2]
 checks = sys.argv[3].split(",") if len(sys.argv) > 3 else [pid]
+dest_override = sys.argv[4] if len(sys.argv) > 4 else None
 src = f"/tmp/seeded-out/{pid}/{x}"
 wt = f"/tmp/wtc-{pid}-{x}"
 env = dict(os.environ, GOFLAGS="-mod=mod", GOPROXY="off", GOSUMDB="off", GOTOOLCHAIN="local")
@@ -21,6 +22,13 @@ try:
     destdir = "valid"
     if m and "/" in m.group(1):
         destdir = os.path.dirname(m.group(1))
+    m2 = re.search(r"\b(file|log|valid/internal|valid)/[\w.]*_test\.go", demo_txt)
+    if m2:
+        destdir = m2.group(1)
+    elif re.search(r"repo(sitory)? root", demo_txt):
+        destdir = "."
+    if dest_override:
+        destdir = dest_override
     rc, out = sh(f"git apply {src}/patch.diff", wt); assert rc == 0, "patch does not apply: " + out
     rc, out = sh("go build ./... && go test -vet=off -count=1 ./...", wt)
     suite_ok = rc == 0
